@@ -485,7 +485,7 @@ def _whole_level_oracle(R, rng, quick):
     import json as _json
     from harness import pipeline
     from neuroglancer_scripts import downscaling
-    n = 14 if quick else 400
+    n = 20 if quick else 400
     for i in range(n):
         d = os.path.join(R.tmp, f"wl{i}")
         os.makedirs(d)
@@ -505,9 +505,11 @@ def _whole_level_oracle(R, rng, quick):
         nii = os.path.join(d, "v.nii")
         pipeline.write_nifti(nii, arr, affine=np.diag(list(vox) + [1.0]))
         out = os.path.join(d, "out")
-        method = rng.choice(["average", "average", "majority", "stride"])
-        ov = rng.choice([None, 0.0, 1.5, 255.0, -3.0]) if method == "average" else None
-        opts = ["--downscaling-method", method] + (["--outside-value", ov] if ov is not None else [])
+        method = rng.choice(["average", "average", "majority", "stride", "auto"])
+        # "auto" (the default: no --downscaling-method) means averaging for an image dataset
+        ov = rng.choice([None, 0.0, 1.5, 255.0, -3.0]) if method in ("average", "auto") else None
+        opts = (["--downscaling-method", method] if method != "auto" else []) + \
+            (["--outside-value", ov] if ov is not None else [])
         store = rng.choice([[], ["--flat"], ["--no-gzip"]])
         steps = [("volume_to_precomputed", ["--generate-info", nii, out]),
                  ("generate_scales_info", [os.path.join(out, "info_fullres.json"), out,
@@ -533,7 +535,7 @@ def _whole_level_oracle(R, rng, quick):
         except Exception as e:  # noqa: BLE001
             R.violation("compute-scales exited 0 but a scale cannot be read back", case, {"exc": f"{type(e).__name__}: {e}"[:200]})
             continue
-        ds = downscaling.get_downscaler(method, info, {"outside_value": ov})
+        ds = downscaling.get_downscaler("average" if method == "auto" else method, info, {"outside_value": ov})
         R.count(f"whole-level:{method}:ov={ov}:ok")
         for a, b in zip(info["scales"], info["scales"][1:]):
             factors = [1 if x == y else 2 for x, y in zip(a["size"], b["size"])]
